@@ -26,6 +26,7 @@ COUNTS = {
     "win": (6000, 100000),
     "cfg": (3000, 60000),
     "srv": (500, 12000),
+    "pair": (800, 40000),
 }
 
 def nontrivial_rule(suite):
@@ -37,6 +38,7 @@ def nontrivial_rule(suite):
         "wrecv": "distinct scripts in which the worker performed at least one receive and one send",
         "wrecv-long": "distinct scripts (each > 65 000 blocks)",
         "win": "distinct operation sequences with at least two operations",
+        "pair": "distinct (configuration, file, fault schedule) triples with at least one fault",
         "srv": "distinct request histories in which the server sent at least one reply",
         "cfg": "distinct argument-vector families (setting groups x 5 key-order-preserving orders) with at least two groups",
     }.get(suite, "distinct cases")
@@ -55,6 +57,8 @@ def is_nontrivial(suite, case, impl):
         return case.count("|") >= 1
     if suite == "srv":
         return "reply=0" in impl
+    if suite == "pair":
+        return not case.endswith(" - -")
     return True
 
 W_ASSUME = ["virtual clock hook (cfg rs_tftpd_verif) supplies time inside Worker::send_file; receive results are scripted",
@@ -64,6 +68,8 @@ PROPS = {
     "C02": {"suites": ["wrecv", "srv"], "monitor": True, "title": "upload fidelity", "assumptions": W_ASSUME},
     "C03": {"suites": ["srv"], "monitor": True, "title": "directory confinement",
             "assumptions": ["no symbolic links inside the served directories; Unix path branch", "loopback UDP delivers the sequential request histories"]},
+    "C04": {"suites": ["pair", "wrecv", "wsend"], "monitor": True, "title": "loss tolerance",
+            "assumptions": W_ASSUME + ["time-outs are delivered at quiescence only (sender first): one fair schedule of the two timers"]},
     "C05": {"suites": ["srv"], "monitor": True, "title": "listener availability",
             "assumptions": ["OS resource exhaustion (threads, descriptors, memory growth) is outside the model", "loopback UDP"]},
     "C06": {"suites": ["srv"], "monitor": True, "title": "access policy", "assumptions": ["Path::exists as modelled by the POSIX tree walk; loopback UDP"]},
